@@ -84,6 +84,8 @@ fn set_float_elem(v: &Val, k: &mut isize, li: Option<usize>) -> Val {
     }
 }
 
+pub const ITER_LENS_SMALL: usize = 21;
+
 fn gen_arg(op: &OpDesc, i: usize, rng: &mut Rng, cls: Cls) -> Val {
     let (n, idx_limit) = limits(op);
     let doc = DOC_PANIC_FNS.contains(&op.fname);
@@ -93,6 +95,9 @@ fn gen_arg(op: &OpDesc, i: usize, rng: &mut Rng, cls: Cls) -> Val {
                 Val::Usize(usize::MAX)
             } else if op.fname == "fmt_spec" {
                 Val::Usize(rng.below(crate::ops::N_FMT_SPECS))
+            } else if op.fname.ends_with("_n") {
+                // index into ITER_LENS; the long ones are enumerated by `sweep_op`, samples and chains stay below 300 items
+                Val::Usize(rng.below(ITER_LENS_SMALL))
             } else if doc {
                 Val::Usize(rng.below(idx_limit))
             } else {
@@ -128,6 +133,10 @@ enum Case {
     /// 180-degree rotation / permutation matrices; identity, negated identity, half-turn quaternions; axis-aligned,
     /// diagonal, parallel and anti-parallel non-axis vectors ...): product over the arguments (sampled if large)
     Structured { combo: usize },
+    /// a structured combination with every float glam argument scaled by 1 + d (d = +-1e-7 ... +-1e-2): *nearly* unit
+    /// quaternions, nearly orthonormal / nearly singular matrices, nearly parallel vectors - the other side of every
+    /// `is_normalized` / epsilon comparison
+    NearStructured { combo: usize, di: usize },
     /// every float element drawn independently from the swarm mix
     Sample { k: usize },
 }
@@ -158,7 +167,9 @@ fn cases_of(op: &OpDesc, samples: usize) -> Vec<Case> {
         }
     }
     if let Some((t, _)) = related_base(op) {
-        let nb = t.n() * 2 * 4 * 2;
+        // axis-aligned bases, then 2n generic ones (lanes of distinct magnitude, rotated so that each lane is once the
+        // smallest and once the largest, in both signs)
+        let nb = t.n() * 2 * 4 * 2 + 2 * t.n();
         for base in 0..nb {
             for rel in 0..6 {
                 for sc in 0..5 {
@@ -178,6 +189,13 @@ fn cases_of(op: &OpDesc, samples: usize) -> Vec<Case> {
             v.push(Case::Structured { combo });
         }
     }
+    if total > 0 {
+        for combo in 0..total.min(192) {
+            for di in 0..NEAR_DELTAS.len() {
+                v.push(Case::NearStructured { combo, di });
+            }
+        }
+    }
     let ns = if op.args.is_empty() { 1 } else { samples };
     for k in 0..ns {
         v.push(Case::Sample { k });
@@ -188,6 +206,19 @@ fn cases_of(op: &OpDesc, samples: usize) -> Vec<Case> {
         }
     }
     v
+}
+
+const NEAR_DELTAS: [f64; 8] = [1.2e-7, -1.2e-7, 1e-6, -3e-6, 1e-4, -2e-4, 1e-3, -1e-2];
+
+/// every float element of the glam values among `v` scaled by `k` (scalars are left alone: angles and parameters)
+fn scale_glam(v: &Val, k: f64) -> Val {
+    match v.glam_bits() {
+        Some((t, b)) if matches!(t.elem(), Elem::F32 | Elem::F64) => {
+            let e = t.elem();
+            t.from_bits(&b.iter().map(|x| if e == Elem::F32 { ((f32::from_bits(*x as u32) as f64 * k) as f32).to_bits() as u64 } else { (f64::from_bits(*x) * k).to_bits() }).collect::<Vec<_>>())
+        }
+        _ => v.clone(),
+    }
 }
 
 fn boundary_values() -> &'static [f64] {
@@ -302,7 +333,7 @@ fn structured(t: TyId, k: usize) -> Option<Val> {
     mk(&v)
 }
 
-fn structured_count(ty: &Ty) -> usize {
+pub(crate) fn structured_count(ty: &Ty) -> usize {
     use std::sync::OnceLock;
     static COUNTS: OnceLock<std::collections::HashMap<TyId, usize>> = OnceLock::new();
     match ty {
@@ -311,12 +342,14 @@ fn structured_count(ty: &Ty) -> usize {
             .get(t)
             .unwrap_or(&0),
         Ty::S(Elem::F32) | Ty::S(Elem::F64) => 9,
+        // the rotation order is an input of the same standing as the angles: all 24, not one drawn at random
+        Ty::Euler => EULER_ALL.len(),
         _ => 0,
     }
 }
 
 /// number of structured combinations of an op (0 when no glam float argument)
-fn structured_total(op: &OpDesc) -> usize {
+pub(crate) fn structured_total(op: &OpDesc) -> usize {
     if !op.args.iter().any(|t| matches!(t, Ty::G(id) if matches!(id.elem(), Elem::F32 | Elem::F64))) {
         return 0;
     }
@@ -326,7 +359,13 @@ fn structured_total(op: &OpDesc) -> usize {
 fn structured_args(op: &OpDesc, combo: usize, rng: &mut Rng) -> Vec<Val> {
     let total = structured_total(op);
     // enumerate the product when it is small, otherwise a deterministic pseudo-random walk through it
-    let mut idx = if total <= 4096 { combo } else { (combo as u64).wrapping_mul(0x9E37_79B9_7F4A_7C15) as usize % total };
+    let idx = if total <= 4096 { combo } else { (combo as u64).wrapping_mul(0x9E37_79B9_7F4A_7C15) as usize % total };
+    structured_args_enum(op, idx, rng)
+}
+
+/// the `idx`-th element of the product of the arguments' structured lists
+pub(crate) fn structured_args_enum(op: &OpDesc, idx: usize, rng: &mut Rng) -> Vec<Val> {
+    let mut idx = idx;
     let scal = [0.0, 0.5, 1.0, -1.0, core::f64::consts::PI, 2.0, core::f64::consts::FRAC_PI_2, -core::f64::consts::FRAC_PI_2, 1.0 / 3.0];
     (0..op.args.len())
         .map(|i| {
@@ -340,6 +379,7 @@ fn structured_args(op: &OpDesc, combo: usize, rng: &mut Rng) -> Vec<Val> {
                 Ty::G(t) => structured(*t, k).unwrap(),
                 Ty::S(Elem::F32) => Val::F32(scal[k] as f32),
                 Ty::S(Elem::F64) => Val::F64(scal[k]),
+                Ty::Euler => Val::Euler(EULER_ALL[k]),
                 _ => unreachable!(),
             }
         })
@@ -347,7 +387,7 @@ fn structured_args(op: &OpDesc, combo: usize, rng: &mut Rng) -> Vec<Val> {
 }
 
 /// the first float vector / quaternion argument, if at least one more float-bearing argument exists
-fn related_base(op: &OpDesc) -> Option<(TyId, usize)> {
+pub(crate) fn related_base(op: &OpDesc) -> Option<(TyId, usize)> {
     let fcount = op.args.iter().filter(|t| t.is_float_bearing()).count();
     if fcount < 2 {
         return None;
@@ -356,6 +396,14 @@ fn related_base(op: &OpDesc) -> Option<(TyId, usize)> {
         Ty::G(id) if matches!(id.elem(), Elem::F32 | Elem::F64) && id.n() <= 4 && !id.name().contains("Mat") => Some((*id, i)),
         _ => None,
     })
+}
+
+/// lanes of pairwise distinct magnitude and mixed sign, rotated by `k % n` (every lane is once the smallest and once the
+/// largest in magnitude); `k >= n` negates
+pub(crate) fn generic_shape(n: usize, k: usize) -> Vec<f64> {
+    let sh = [3.0, 2.0, 0.5, -1.25];
+    let sg = if (k / n) % 2 == 1 { -1.0 } else { 1.0 };
+    (0..n).map(|l| sg * sh[(l + n - k % n) % n]).collect()
 }
 
 fn fbits(e: Elem, x: f64) -> u64 {
@@ -371,7 +419,10 @@ fn related_args(op: &OpDesc, base: usize, rel: usize, sc: usize, rng: &mut Rng) 
     let mag = [1.0, 2.5, 1e-20, 1e20][(base / (2 * n)) % 4];
     let zneg = (base / (8 * n)) % 2 == 1;
     let zero = if zneg { -0.0 } else { 0.0 };
-    let lanes: Vec<f64> = (0..n).map(|l| if l == axis { if neg { -mag } else { mag } } else { zero }).collect();
+    let mut lanes: Vec<f64> = (0..n).map(|l| if l == axis { if neg { -mag } else { mag } } else { zero }).collect();
+    if base >= 16 * n {
+        lanes = generic_shape(n, base - 16 * n);
+    }
     let mk = |ls: &[f64]| t.from_bits(&ls.iter().map(|x| fbits(e, *x)).collect::<Vec<_>>());
     let scalars = [0.0, 0.5, 1.0, -1.0];
     (0..op.args.len())
@@ -408,6 +459,12 @@ fn make_args(op: &OpDesc, oi: usize, case: &Case, ci: usize, seed: u64) -> Vec<V
     }
     if let Case::Structured { combo } = case {
         return structured_args(op, *combo, &mut rng);
+    }
+    if let Case::NearStructured { combo, di } = case {
+        let total = structured_total(op);
+        // a stride walk, so that the 192 combinations spread over the whole product
+        let idx = if total <= 192 { *combo } else { ((*combo as u64 * 0x9E37_79B1) % total as u64) as usize };
+        return structured_args_enum(op, idx, &mut rng).iter().map(|a| scale_glam(a, 1.0 + NEAR_DELTAS[*di])).collect();
     }
     if let Case::TwoLanes { .. } = case {
         let mut args: Vec<Val> = (0..op.args.len()).map(|i| gen_arg(op, i, &mut rng, Cls::Ordinary)).collect();
@@ -526,6 +583,26 @@ fn sweep_op(oi: usize, seed: u64, samples: usize) -> OpResult {
         }
         return res;
     }
+    if op.fname.ends_with("_n") {
+        // the iterator's length is an argument too: every length of the list x a few values (the value cases below
+        // run with short lengths)
+        for k in 0..crate::ops::ITER_LENS.len() {
+            for vi in 0..5usize {
+                let mut rng = Rng::new(seed, "c18p-len", (oi as u64) << 16 | (k as u64) << 4 | vi as u64);
+                let cls = match vi { 0 => Cls::Ordinary, 1 => Cls::Lattice(0), 2 => Cls::Lattice(13), 3 => Cls::Lattice(9), _ => Cls::Mix };
+                let args = vec![gen_val(&op.args[0], &mut rng, cls, 4), gen_val(&op.args[1], &mut rng, cls, 4), Val::Usize(k)];
+                res.evals += 1;
+                res.distinct += 1;
+                if let Err(p) = call(op, &args) {
+                    if res.viol.is_none() {
+                        let class = format!("panic:{}", op.name);
+                        let detail = format!("panicked: {} at {} with {} ({} items)", p.msg, p.loc, render_args(op, &args), crate::ops::ITER_LENS[k]);
+                        res.viol = Some(Violation { class: class.clone(), detail: detail.clone(), replay: replay_json(op, &args, seed, &class, &detail) });
+                    }
+                }
+            }
+        }
+    }
     let cases = cases_of(op, samples);
     for (ci, case) in cases.iter().enumerate() {
         let args = make_args(op, oi, case, ci, seed);
@@ -538,7 +615,7 @@ fn sweep_op(oi: usize, seed: u64, samples: usize) -> OpResult {
         if seen.insert(d.finish()) {
             res.distinct += 1;
         }
-        if !matches!(case, Case::Sample { .. } | Case::TwoLanes { .. } | Case::Related { .. } | Case::Structured { .. } | Case::Boundary { .. }) {
+        if !matches!(case, Case::Sample { .. } | Case::TwoLanes { .. } | Case::Related { .. } | Case::Structured { .. } | Case::NearStructured { .. } | Case::Boundary { .. }) {
             res.lattice_hits += 1;
         }
         res.evals += 1;
@@ -683,7 +760,7 @@ pub fn replay(j: &J) -> Option<(String, String)> {
 /// One or two plain calls of every op of a shard: the "every public function executes at least once under the
 /// machine-level monitor" pass (Miri reports uninitialised / out-of-bounds / misaligned accesses even when the
 /// result is right and nothing crashes natively). The op is announced first, so a monitor abort names it.
-pub fn run_once(seed: u64, shard: usize, of: usize, only: Option<&str>, calls: usize) -> Summary {
+pub fn run_once(seed: u64, shard: usize, of: usize, only: Option<&str>, calls: usize, related: usize) -> Summary {
     let mut sum = Summary::default();
     sum.faults_fired.insert("HOSTILE_VALUE".into(), 0);
     sum.faults_effective.insert("HOSTILE_VALUE".into(), 0);
@@ -704,10 +781,32 @@ pub fn run_once(seed: u64, shard: usize, of: usize, only: Option<&str>, calls: u
         let nstruct = structured_total(op);
         // `calls` of the four argument sets; which ones rotates with the op index so that a reduced budget still spreads
         let all: Vec<usize> = (0..if nstruct > 0 { 4 } else { 2 }).collect();
-        let chosen: Vec<usize> = if calls >= all.len() { all } else { (0..calls).map(|j| all[(oi + seed as usize + j * 3) % all.len()]).collect() };
+        let mut chosen: Vec<usize> = if calls >= all.len() { all } else { (0..calls).map(|j| all[(oi + seed as usize + j * 3) % all.len()]).collect() };
+        // functions of two or more same-typed vectors / quaternions: the *relation* between the operands selects the
+        // branch (parallel, anti-parallel), and which lane is the smallest selects the sub-branch; memory errors there
+        // are visible to the interpreter only. `related` of the 4n (rotation x sign x {equal, opposite}) sets per op.
+        if let Some((t, bi)) = related_base(op) {
+            if op.args.iter().enumerate().any(|(i, a)| i != bi && *a == Ty::G(t)) {
+                let n = t.n();
+                let sets: Vec<usize> = (0..4 * n).collect();
+                let take = related.min(sets.len());
+                // opposite pairs first (the rarer branch), rotations spread by op index and seed
+                for j in 0..take {
+                    let rot = (oi + seed as usize + j) % (2 * n);
+                    let rel = if j < 2 * n { 1 } else { 0 };
+                    chosen.push(100 + rel * 2 * n + rot);
+                }
+            }
+        }
         for k in chosen {
-            let mut rng = Rng::new(seed, "c18p-once", (oi as u64) << 4 | k as u64);
+            let mut rng = Rng::new(seed, "c18p-once", (oi as u64) << 8 | k as u64);
             let args: Vec<Val> = match k {
+                k if k >= 100 => {
+                    let (t, _) = related_base(op).unwrap();
+                    let n = t.n();
+                    let (rel, rot) = ((k - 100) / (2 * n), (k - 100) % (2 * n));
+                    related_args(op, 16 * n + rot, rel, 1 + rot % 3, &mut rng)
+                }
                 0 => (0..op.args.len()).map(|i| gen_arg(op, i, &mut rng, Cls::Ordinary)).collect(),
                 1 => (0..op.args.len()).map(|i| gen_arg(op, i, &mut rng, Cls::Mix)).collect(),
                 // degenerate branches: uniformly zero arguments, and one structured combination drawn by the seed
